@@ -1272,6 +1272,33 @@ def rule_last_segment_closes_frame(res, rid, m):
         if not ok and bad is None:
             bad = last
     if n == 0:
+        # the same decision taken once behind the loop (a last segment completes the payload, so only the final iteration can write one): a path
+        # that leaves the loop tests a local that holds the flag builder's latest answer and then closes the frame
+        ldefs = facts.local_defs(f)
+        for p in paths.enumerate_paths(f):
+            if p.end != "exit":
+                continue
+            hit = [a for a in p.atoms if a[0] == "cmp" and a[2] == "==" and ("lastSegment" in a[1] or "lastSegment" in a[3])]
+            if not hit:
+                continue
+            var = None
+            for x in (hit[0][4], hit[0][5]):
+                xs = strip_all_casts(x)
+                if xs.get("k") == "ref" and xs.get("dk") == "local":
+                    var = xs["decl"]
+            real = [d for d in ldefs.get(var, []) if const_value(d) is None] if var else []
+            if not real or not all(strip_all_casts(d).get("k") == "call" and m.calls_fn(strip_all_casts(d), m.flag_builder) for d in real):
+                continue
+            last = None
+            for _, x in p.elems():
+                if x.get("id") in wr:
+                    last = wr[x["id"]]
+            n += 1
+            if not (last is not None and last[0] == "assign" and const_value(last[1]["r"]) == 0) and bad is None:
+                bad = ("write",) + last if last is not None else None
+                if last is None:
+                    n -= 1
+    if n == 0:
         res.bad(rid, "last-segment-closes-frame", f.loc, "%s never distinguishes the last segment of a packet: its frame stays open and the next message "
                 "that fits is written behind it" % f.name)
         return 1
